@@ -559,9 +559,11 @@ def replay(h, recipe):
 # generators
 # ------------------------------------------------------------------------------------------------
 
-def func_strategy(supported):
+def func_strategy(supported, slot=0):
     """supported: list of (kind, t) binary ops the pipeline accepts. Choices are arranged so that the
-    all-minimal draw (what Hypothesis tries first and is biased towards) is an ordinary function."""
+    all-minimal draw (what Hypothesis tries first and is biased towards) is an ordinary function, and
+    the choice lists are rotated by the function's slot in the batch so that the all-minimal BATCH is 16
+    different functions rather than 16 copies."""
     kinds_by_t = {t: [k for k, tt in supported if tt == t] for t in (0, 1)}
     value = st.one_of(st.sampled_from(BOUNDARY), st.sampled_from(BOUNDARY), st.sampled_from(BOUNDARY),
                       st.integers(0, M64))
@@ -574,9 +576,13 @@ def func_strategy(supported):
         def rare(n):
             return draw(st.integers(0, n - 1)) == n - 1
 
-        shape = draw(st.sampled_from(["fan", "dag", "chain", "dag", "fan"]))
-        nargs = draw(st.sampled_from([7, 3, 0, 1, 2, 4, 5, 6, 6, 7, 8, 8, 9, 10]))
-        tymode = draw(st.sampled_from([0, 1, 2, 0, 0]))
+        def rot(lst, k):
+            k %= len(lst)
+            return lst[k:] + lst[:k]
+
+        shape = draw(st.sampled_from(rot(["fan", "dag", "chain", "dag", "fan"], slot)))
+        nargs = draw(st.sampled_from(rot([7, 3, 0, 8, 1, 10, 2, 6, 4, 9, 5, 7, 6, 8], slot)))
+        tymode = draw(st.sampled_from(rot([0, 1, 2, 0, 0], slot // 2)))
         if tymode == 2:
             args = draw(st.lists(st.sampled_from([0, 1]), min_size=nargs, max_size=nargs))
         else:
@@ -608,7 +614,7 @@ def func_strategy(supported):
             t = draw(st.sampled_from(tset))
             # register pressure: the allocator never reuses the registers of the parameters
             hi = max(4, 12 - min(nargs, 6))
-            m = draw(st.integers(3, hi + 2))
+            m = hi + 2 - draw(st.integers(0, hi - 1))
             first = base = size[t]
             for _ in range(m):
                 if rare(5):
@@ -687,16 +693,18 @@ def selftest(sess):
 
 def checks(h):
     with session() as sess:
-        selftest(sess)
+        if h.shard == 0:
+            selftest(sess)
+            h.count("trampoline_selftest_passed")
         supported = probe(h, sess)
         if not supported:
             raise AssertionError("the pipeline accepts none of the probed arith ops")
         bsize = 16
-        batches = st.lists(func_strategy(supported), min_size=bsize, max_size=bsize).map(
-            lambda fs: {"funcs": fs})
+        batches = st.tuples(*[func_strategy(supported, i + 5 * h.shard) for i in range(bsize)]).map(
+            lambda fs: {"funcs": list(fs)})
 
         import time
-        t_end = time.time() + (240.0 if h.quick else 1500.0)   # wall budget only; a hit is inconclusive
+        t_end = time.time() + (420.0 if h.quick else 2400.0)   # wall budget only; a hit is inconclusive
 
         def body(batch):
             if time.time() > t_end and not h._shrinking:
